@@ -217,6 +217,20 @@ func run(in []byte) (*reg.Result, error) {
 					}
 					return as, nil
 				}
+				// an expectation anchored at EACH-FILLER stands for one expectation per filler file
+				var expanded []expectedRec
+				for _, e := range j.expected {
+					if strings.HasPrefix(e.At, "EACH-FILLER#") {
+						for k := 0; k < FillerCount(); k++ {
+							x := e
+							x.At = fmt.Sprintf("filler/f%04d.proto#%s", k, strings.TrimPrefix(e.At, "EACH-FILLER#"))
+							expanded = append(expanded, x)
+						}
+					} else {
+						expanded = append(expanded, e)
+					}
+				}
+				j.expected = expanded
 				find := func(as []bufx.Annotation, e expectedRec) (bool, string) {
 					why := "no annotation with this rule ID"
 					for _, a := range as {
